@@ -34,6 +34,17 @@ Init ==
 InBounds(a) == \A b \in bounds : TrueP(b, a)
 ObjVal(a) == Val(obj.x, a)
 
+\* A literal created by new_literal_for_predicate never occurs in a proof: the predicate it stands
+\* for is written instead. An inference therefore follows from its tagged constraint TOGETHER with
+\* the definitions of such literals (which a checker applies as a substitution).
+Defs == {i \in DOMAIN cons : cons[i].c.k = "lit_pred"}
+FollowsModuloDefinitions(c, e) ==
+    LET S == Scope(c) \cup PredVars(e.prem) \cup (IF e.has THEN {e.concl.x.v} ELSE {})
+                 \cup UNION {Scope(cons[i].c) : i \in Defs}
+    IN  \A a \in ScopeAsgs(vars, S, Fill) :
+            (Holds(c, a) /\ AllTrue(e.prem, a) /\ \A i \in Defs : Holds(cons[i].c, a))
+                => (e.has /\ TrueP(e.concl, a))
+
 \* ---- proof steps
 TrInf(e) ==
     LET C == InfClause(e.prem, e.has, e.concl)
@@ -49,9 +60,7 @@ TrInf(e) ==
     /\ IF e.tag # 0 THEN
           /\ Mon("C06.TagKnown", tagged # {}, e)
           /\ Mon("C06.InferenceFollowsFromTaggedConstraint",
-                 tagged = {} \/ \A i \in tagged :
-                    IF e.has THEN Entails(vars, Fill, cons[i].c, e.prem, e.concl)
-                    ELSE Refutes(vars, Fill, cons[i].c, e.prem),
+                 tagged = {} \/ \A i \in tagged : FollowsModuloDefinitions(cons[i].c, e),
                  [step |-> e, constraint |-> {cons[i].c : i \in tagged}])
        \* untagged: an improvement step of the optimisation, pure domain reasoning, or a propagation
        \* by a nogood derived earlier (then it follows from the live nogoods by reverse propagation)
